@@ -441,9 +441,11 @@ def r26_8(ctx, rep):
     rets = [x for x in cfg.stmts() if isinstance(x.ast, ast.Return)]
     if not rets:
         raise MechanismMissing(R, "main() has no return")
-    first_ret = min(rets, key=lambda x: x.lineno)
+    # "first" in control-flow terms (inlined helper code carries the helper's line numbers): the return closest to the entry
+    dom = cfg.dominators()
+    first_ret = min(rets, key=lambda x: (len(dom.get(x.id, ())), x.lineno))
     n = 0
-    for lg in [x for x in cfg.nodes if _is_log_error(x) and x.lineno < first_ret.lineno]:
+    for lg in [x for x in cfg.nodes if _is_log_error(x) and first_ret.id in cfg.reachable(x.id)]:
         own = set()
         for c in calls(lg.ast):
             own |= _args_attrs(c)
